@@ -60,21 +60,26 @@ type chunk struct {
 }
 
 type chunkReader struct {
-	chunks []chunk
-	i      int
-	fin    error
-	log    []int
+	chunks  []chunk
+	i       int
+	fin     error
+	log     []int
+	errSeen bool // some Read has returned a non-nil error (the decoder may have reached its terminal state)
 }
 
 func (r *chunkReader) Read(p []byte) (int, error) {
 	r.log = append(r.log, len(p))
 	if r.i >= len(r.chunks) {
+		r.errSeen = true
 		return 0, r.fin
 	}
 	c := &r.chunks[r.i]
 	if len(c.data) <= len(p) {
 		n := copy(p, c.data)
 		r.i++
+		if c.err != nil {
+			r.errSeen = true
+		}
 		return n, c.err
 	}
 	n := copy(p, c.data)
@@ -240,10 +245,13 @@ func churn(pcap int) {
 var churnCount = 0
 
 func runDec(c *dcase) (opres []string, log []int, seq []item, alias string) {
-	chunks, _, _, _ := parseChunks(c.chunks)
+	chunks, all, wfr, _ := parseChunks(c.chunks)
 	fin := errOf(c.fin)
 	rd := &chunkReader{chunks: chunks, fin: fin}
 	option.DefaultDecoderBufferSize = uint(c.pcap)
+	// encoding/json.Decoder in lockstep on the unchunked bytes: the oracle of More()
+	stdD := json.NewDecoder(&chunkReader{chunks: []chunk{{data: append([]byte{}, all...)}}, fin: io.EOF})
+	stdOK := wfr // compare as long as neither decoder has returned an error and the reader is well-behaved
 	var d streamDec
 	if c.sonicCfg {
 		d = sonic.ConfigDefault.NewDecoder(rd).(streamDec)
@@ -273,6 +281,12 @@ func runDec(c *dcase) (opres []string, log []int, seq []item, alias string) {
 			case 'd':
 				var v interface{} = sentinel // a non-pointer value inside the interface is replaced by whatever is decoded
 				err := d.Decode(&v)
+				if stdOK {
+					var raw json.RawMessage
+					if stdD.Decode(&raw) != nil || err != nil {
+						stdOK = false
+					}
+				}
 				if err == nil {
 					if sv, ok := v.(string); ok && sv == sentinel {
 						res = "N"
@@ -304,14 +318,34 @@ func runDec(c *dcase) (opres []string, log []int, seq []item, alias string) {
 					}
 				}
 			case 'm':
-				if d.More() {
+				m := d.More()
+				if m {
 					res = "M1"
 				} else {
 					res = "M0"
 				}
+				if stdOK && !done && alias == "" {
+					// documented behaviour (encoding/json): another element follows = a non-space byte that is not ] or }.
+					// At the very end of a stream whose reader fails, encoding/json would see io.EOF here: skip that case.
+					if sm := stdD.More(); sm != m && !(fin != io.EOF && rd.i >= len(rd.chunks)) {
+						alias = fmt.Sprintf("more:%d:%v:%v", len(opres), m, sm)
+					}
+				}
 			case 'b':
 				b, _ := io.ReadAll(d.Buffered())
 				res = "B:" + out.Hex(b)
+				if !done && wfr && alias == "" && !rd.errSeen {
+					// (as long as the reader has not reported its final condition: after that the decoder may be finished)
+					// Buffered() ++ what the reader has not delivered yet = the stream from InputOffset() on
+					rest := append([]byte{}, b...)
+					for _, ck := range rd.chunks[minInt(rd.i, len(rd.chunks)):] {
+						rest = append(rest, ck.data...)
+					}
+					off := int(d.InputOffset())
+					if off < 0 || off > len(all) || !bytes.Equal(all[off:], rest) {
+						alias = fmt.Sprintf("buf:%d:%d", len(opres), off)
+					}
+				}
 			}
 		}()
 		off := int64(-1)
@@ -367,6 +401,13 @@ func skipWS(b []byte, i int) int {
 // of its own, that error takes the place of the clean end and of "unexpected end of input" (truncated tail),
 // and a number that runs up to the very end of the delivered bytes is not yet a value (more digits could
 // have followed); a malformed tail is still a syntax error.
+func minInt(a, b int) int {
+	if a < b {
+		return a
+	}
+	return b
+}
+
 func runStd(all []byte, fin error) stdRes {
 	rd := &chunkReader{chunks: []chunk{{data: append([]byte{}, all...)}}, fin: io.EOF}
 	d := json.NewDecoder(rd)
